@@ -526,3 +526,22 @@ Section AllGraphs.
     split; [exact Fg|]. split; [exact Em|exact Ep].
   Qed.
 End AllGraphs.
+
+(* ---------------------------------------------------------------- groundwork for W6 / W7: in the global
+   order every member of a group comes before every member of a group it feeds (quotient edge) *)
+Lemma qedge_before ks np en s f x y :
+  SMInv ks np en s f -> In x ks -> In y ks -> qedge f np ks (f x) (f y) ->
+  exists i j, nth_error (sm_order s) i = Some x /\ nth_error (sm_order s) j = Some y /\ (i < j)%nat.
+Proof.
+  intros I Kx Ky Q.
+  destruct (GraphAlg.PSmCyc.qedge_ranges ks np en s f I (f x) (f y) Q)
+    as (ia & la & ib & lb & Ia & La & Ib & Lb & _ & _ & Hle).
+  destruct (inv_group _ _ _ _ _ I (f x) ia Ia) as (_ & _ & la' & La' & _ & _ & _ & Ma).
+  destruct (inv_group _ _ _ _ _ I (f y) ib Ib) as (_ & _ & lb' & Lb' & _ & _ & _ & Mb).
+  rewrite La in La'. injection La' as <-. rewrite Lb in Lb'. injection Lb' as <-.
+  assert (Hx : In x (slice (sm_order s) ia la)) by (apply Ma; auto).
+  assert (Hy : In y (slice (sm_order s) ib lb)) by (apply Mb; auto).
+  apply In_slice_nth in Hx. apply In_slice_nth in Hy.
+  destruct Hx as (i & Hi & Ni). destruct Hy as (j & Hj & Nj).
+  exists i, j. repeat split; auto. lia.
+Qed.
